@@ -662,6 +662,12 @@ func (c *FnCtx) evalCall(x *ECall, env *Env) (TV, error) {
 			}
 			return TV{}, fmt.Errorf("len of %s", a.typ)
 		case "has":
+			if oc, ok := x.Args[0].(*ECall); ok {
+				if id, ok := oc.Fun.(*EIdent); ok && id.Name == "old" {
+					// old(m) is the same map reference; membership would be read in the current state
+					return TV{}, fmt.Errorf("has(old(m), k) reads the current contents of m: write old(has(m, k))")
+				}
+			}
 			args, err := evalArgs()
 			if err != nil {
 				return TV{}, err
